@@ -528,8 +528,9 @@ theorem isCanon_sumSafe0_one (l : List Var) : IsCanon lvl (sumSafe0 .one l) := b
 theorem sumSimplify_leaf_disjoint {pop : Option Var} {L rs : List Var} (hn : (L.map (·.name)).Nodup)
     (hL : upgradeOrdering L = L) (hLne : L ≠ []) (hrs : upgradeOrdering rs = rs) (hrne : rs ≠ [])
     (hdis : ∀ v ∈ L, v.base ∉ rs) : sumSimplify (.prob pop L []) rs = .sum (.prob pop L []) rs := by
+  have hg : ((dedup' (L.map Var.base)).length != L.length) = false := dupBase_false_iff.mpr hn
   unfold sumSimplify
-  simp only
+  simp only [hg, Bool.false_eq_true, if_false]
   have hvals := dictVals_eq_filter hn
   rw [dedup'_of_nodup (nodup_map_base hn)] at *
   have hkey : ∀ k ∈ L.map Var.base, k ∉ rs := by
@@ -587,6 +588,11 @@ theorem isCanon_sumSimplify (hm : NameMonotone lvl) {x : Expr} {rs : List Var} (
       · exact pairwise_upgradeOrdering _
     unfold sumSimplify
     simp only
+    split
+    · -- a base variable with several children: the sum is left alone, and stays alone
+      rename_i hd
+      unfold IsCanon
+      exact ⟨hx, hne, hrs, rfl, sumSimplify_dup (show dupBase c = true from hd)⟩
     split
     · simp [IsCanon]
     · split
